@@ -176,6 +176,8 @@ func runC01(r *rt.Runner) {
 		"errordict /interrupt { { } loop } put { } loop", "errordict /stackoverflow { 1 } put { 1 } loop",
 		"/CIDInit /ProcSet findresource begin begincmap 100 begincidrange endcidrange 9223372036854775807 begincidrange -1 begincidchar 101 beginbfchar endcmap endcmap",
 		"/CIDInit /ProcSet findresource begin endcmap endcidrange endbfchar usecmap",
+		"errordict /typecheck get exec", "errordict { exch pop exec } forall", "errordict /handleerror get exec errordict /interrupt get exec",
+		"{ currentfile eexec\n< { end } exec", "currentfile eexec\n7b203c207b20656e64207d2065786563 } exec",
 		"/CIDInit /ProcSet findresource begin begincmap 2 begincidrange <00> <01> 1 (x) <05> 2 endcidrange",
 	)
 	for _, text := range shapes {
